@@ -1,16 +1,27 @@
 """C16 — reading a single sensor gives the same value as the bulk read."""
 from .common import *
 
-SIDECARS = ["sensor", "protocol_cmd"]
+SIDECARS = ["sensor", "protocol_cmd", "modbus", "inverter"]
 
 
 def units(tier):
     import contracts.sensor as cs
+    from . import C15
     tabs = [t for t in sorted(cs.sensor_tables()) if not t.startswith("ES.") and "sensors" in t]
-    return script_units(SIDECARS, "single_read_rows", "single", ("C16",), tier, tabs)
+    out = script_units(SIDECARS, "single_read_rows", "single", ("C16",), tier, tabs)
+    H = "pyvc.inverter_harness"
+    for fam, n in (("ET", 12), ("DT", 3)):
+        for c in range(n):
+            out.append(("script", C15.SIDECARS, H, "single_vs_bulk", f"api:{fam}#{c}", ("C16",), tier,
+                        {"family": fam, "chunk": c, "nchunks": n}))
+        out.append(("script", C15.SIDECARS, H, "sensor_cache_history", f"cache:{fam}", ("C16",), tier, {"family": fam}))
+    return out
 
 
-replay = replay_rows
+def replay(vc, unit):
+    if vc["name"].startswith(("api:", "cache:")):
+        return replay_c16(vc, unit)
+    return replay_rows(vc, unit)
 INFO = {
     "trusted_base": [TB["T1"], TB["T2"], TB["T3"]],
     "assumptions": ["A5 float operators uninterpreted (single and bulk read must build the same term)"],
